@@ -236,7 +236,7 @@ def c11_phase_entries(c):
 # generators
 # ---------------------------------------------------------------------------------------------------
 def gen_grid(rng, tier, kind=None):
-    kinds = ["2d", "2d", "2d", "2d", "row", "col", "1d", "one", "thin"]
+    kinds = ["2d"] * 8 + ["row", "row", "col", "col", "1d", "1d", "thin", "thin", "one"]
     kind = kind or kinds[rng.integers(len(kinds))]
     big = 7 if tier == "quick" else 9
     if kind == "2d":
